@@ -1,4 +1,5 @@
 import ConjureVerif.Lemmas.Endpoint
+import ConjureVerif.Lemmas.Emit
 import ConjureVerif.Gen.MacroEndpointsSrc
 import ConjureVerif.Gen.PrivateServerSrc
 import ConjureVerif.Gen.ServerModSrc
@@ -144,3 +145,27 @@ example : ((handleReq [exHeader] (exReq [([120], [52, 50])])).error.isNone) = tr
 example : ((handleReq [exHeader] (exReq [([120], [52, 50]), ([120], [52, 50])])).error.map (·.actual)) = some (some 2) := by decide +kernel
 
 end ConjureVerif.C19
+
+/-! ### the generator: the name an argument is reported under, for every definition (Model/Emit.lean) -/
+namespace ConjureVerif.C19G
+open ConjureVerif ConjureVerif.Emit
+
+/-- the name the expanded handler reports for an argument (`param`, and the key in `SafeParams`): `log_as` when the
+attribute has one, the Rust identifier otherwise (conjure-macros, `ArgType::log_as`) -/
+def reportedName : SAttr → Option Emit.Bytes
+  | .path _ i l | .query _ _ i l | .header _ _ i l | .body _ i l => some (l.getD (strBytes i))
+  | _ => none
+
+/-- **declared names**: whatever the argument is called — camelCase, a Rust keyword, anything the identifier rules
+rewrite — the generated server trait makes the handler report it under its declared Conjure name -/
+theorem C19_generated_param_name (defs : Defs) (f : Nat) (kw : List String) (a : Arg) :
+    reportedName (serverArg defs f kw a) = some a.name := by
+  unfold serverArg
+  have h : (logAs kw a).getD (strBytes (ident kw a)) = a.name := by
+    unfold logAs
+    by_cases hi : strBytes (ident kw a) = a.name
+    · simp [hi]
+    · simp [hi]
+  cases a.kind <;> simp [reportedName, h]
+
+end ConjureVerif.C19G
